@@ -10,7 +10,7 @@
    Family = "C04": values only the constructors can build: signed / two-part literals, prefix plus, DELAY
                    without frame names, CALL immediates, placeholders -- single instructions.             *)
 EXTENDS QuilPrint, Json
-CONSTANTS Family, MaxLen, Depth
+CONSTANTS Family, MaxLen, Depth, SmallLeaves
 
 Str(s) == s     \* readability: quoted-string values are character sequences
 S_rf  == <<"r", "f">>
@@ -36,11 +36,14 @@ X == EVar("x")
 NormalLeaves == { R(M0), R(M2), R(Mh), R(Mb), Imag(FALSE, M2), Pi, X, Addr(MT) }
 ApiLeaves    == { Real(TRUE, M1), Imag(TRUE, M2), Cplx(FALSE, M1, FALSE, M2), Cplx(TRUE, M1, TRUE, M2) }
 Ops == {"+", "-", "*", "/", "^"}
+\* at depth 2 (thorough) only the two operators whose printing is delicate (the spaced minus, the right-associative
+\* caret that binds tighter than a prefix minus) are combined, over the small leaf set, to keep the run in minutes
+OpsAt(d) == IF d >= 2 THEN {"-", "^"} ELSE Ops
 RECURSIVE Trees(_, _, _)
 Trees(leaves, d, withPos) ==
   IF d = 0 THEN leaves
   ELSE LET S == Trees(leaves, d - 1, withPos) IN
-       S \cup { Inf(o, a, b) : o \in Ops, a \in S, b \in S } \cup { Neg(a) : a \in S }
+       S \cup { Inf(o, a, b) : o \in OpsAt(d), a \in S, b \in S } \cup { Neg(a) : a \in S }
          \cup (IF withPos THEN { Pos(a) : a \in S } ELSE {}) \cup { Fn("sin", a) : a \in S }
 
 \* the awkward spellings of DESIGN §6 C02 as parse trees: 2^3^2, 1-2-3, -2^2, 2*-3, -(-pi), (1+2i)*x, cis(-m)
@@ -59,7 +62,10 @@ Api == Family = "C04"
 \* expressions used in every expression position
 ES == IF Api THEN AwkwardApi \cup {R(M2), Pi, X, Addr(MT)} ELSE AwkwardNormal \cup {R(M2), R(Mh), Pi, X, Addr(MT)}
 \* expressions used in the one exhaustive position (gate parameter)
-ParamTrees == Trees(IF Api THEN NormalLeaves \cup ApiLeaves ELSE NormalLeaves, Depth, Api)
+SmallNormal == { R(M2), Imag(FALSE, M2), Pi, X }
+SmallApi    == { R(M2), Real(TRUE, M1), Cplx(FALSE, M1, TRUE, M2), X }
+ParamTrees == Trees(IF SmallLeaves THEN (IF Api THEN SmallApi ELSE SmallNormal)
+                    ELSE (IF Api THEN NormalLeaves \cup ApiLeaves ELSE NormalLeaves), Depth, Api)
 E1 == R(M2)   E2 == Inf("/", Pi, R(M2))
 
 \* ---- operands of instructions
